@@ -182,6 +182,9 @@ class AnnotateLigands(Processor):
                 molecule.nodes[current]["build"] = True
                 molecule.nodes[current]["ligated"] = (lig_idx,
                                                       lig_node)
+                # the size of the ligand residue is stored with its template
+                if "template" in ligand.nodes[lig_node]:
+                    molecule.nodes[current]["template"] = ligand.nodes[lig_node]["template"]
                 current += 1
 
     def split_ligands(self):
